@@ -142,3 +142,41 @@ func init() {
 		return 0
 	}
 }
+
+func init() {
+	// vcheck visible <file> <line> <character>: the declarations R-bind considers visible at a position
+	special["visible"] = func(args []string) int {
+		if len(args) < 3 {
+			fmt.Println("usage: visible <file> <line> <character>")
+			return 2
+		}
+		b, err := os.ReadFile(args[0])
+		if err != nil {
+			fmt.Println(err)
+			return 2
+		}
+		var line, ch int
+		fmt.Sscan(args[1], &line)
+		fmt.Sscan(args[2], &ch)
+		off, ok := (&RText{B: b}).Offset(Position{Line: line, Character: ch})
+		if !ok {
+			fmt.Println("position outside the text")
+			return 2
+		}
+		pr := RParse(b)
+		if !pr.Valid() {
+			fmt.Println("not valid:", pr.Err)
+			return 1
+		}
+		br := RBind(pr)
+		for _, d := range br.Decls {
+			if d.Tok == nil {
+				continue
+			}
+			vis := d.VisFrom <= off && off < d.VisTo
+			fmt.Printf("%-12s %-9s decl@%d vis[%d,%d) visible=%v\n", d.Name, d.Kind.String(), d.Tok.Off, d.VisFrom, d.VisTo, vis)
+		}
+		fmt.Println("cursor offset", off)
+		return 0
+	}
+}
